@@ -833,6 +833,16 @@ func init() {
 				}
 			}
 		}
+		// unknown tags in every one of the 256 namespaces (top byte), request and response side
+		for ns := 0; ns < 256; ns++ {
+			for _, low := range []uint32{0x00fffffe, 0x007ffffe} {
+				t := uint32(ns)<<24 | low
+				if rscp.Tag(t).IsATag() {
+					continue
+				}
+				anyCase(cw, padBlocks(frameBytes(append(itemBytes(t, 3, []byte{1}), itemBytes(0x00800006, 0x0e, itemBytes(t, 0, nil))...), ns%2 == 0, 1, 2)), "N unknown-tag-namespace")
+			}
+		}
 		// the 12 time bytes of the header are not part of well-formedness: every value is accepted
 		for _, sec := range []uint64{0, 1, 0xffffffffffffffff, 0x7fffffffffffffff, 0x8000000000000000, 253402300800} {
 			for _, ns := range []uint32{0, 999999999, 1000000000, 0x7fffffff, 0x80000000, 0xffffffff} {
